@@ -191,6 +191,13 @@ def monitorHist (sc : HScn) (entries : List String) : List (String × String) :=
         if objs.any (fun o => (sc.ops[o]?.map (·.w)) != some n3) then m := m.add "C01" "delivered-to-another-watcher" |>.add "C05" "mixed-watchers"
       | none => m := m.add "C01" "callback-without-a-raised-batch"
     else if kind == "cbret" then
+      -- f = [t, cbret, b, objs as the watcher finds them in its batch when it returns]
+      let changed : Bool := f.length ≥ 4 &&
+        (match m.batches.toList.find? (fun b => b.harnessB == some n2) with
+         | some b => objsOf (f.getD 3 "") != b.objs
+         | none => false)
+      if changed then
+        m := m.add "C01" "watcher-finds-other-operations-than-were-raised-for-it" |>.add "C05" "batch-changed-after-it-was-handed-to-the-watcher"
       m := { m with batches := m.batches.map fun b => if b.harnessB == some n2 then { b with cbRet := some t } else b }
     else if kind == "end" then
       -- starvation: with no rate limiter every cycle empties the buffer as far as batch slots allow. An operation
